@@ -2,6 +2,7 @@ package main
 
 import (
 	"bytes"
+	"encoding/json"
 	"fmt"
 	"runtime"
 	"sort"
@@ -41,7 +42,31 @@ func reconstruct(v *View, id string) st.Request {
 	return st.NewRequest(mustHex(id), c.ServiceName, r.Provider, c.Consumer, c.Input, r.ServiceFee, c.SuperMode, r.RequestHeight, r.ExpirationHeight, r.RequestContextId, r.RequestContextBatchCounter)
 }
 
-func strList(items []string) string { return fmt.Sprint(len(items), items) }
+// list answers are compared as multisets: the property fixes the elements, not their order
+func strList(items []string) string {
+	c := append([]string{}, items...)
+	sort.Strings(c)
+	return fmt.Sprint(len(c), c)
+}
+
+// jsonMultiset renders a JSON array as the sorted list of its elements (anything else is returned unchanged).
+func jsonMultiset(bz []byte) string {
+	var arr []json.RawMessage
+	if err := json.Unmarshal(bz, &arr); err != nil {
+		return string(bz)
+	}
+	var els []string
+	for _, e := range arr {
+		var buf bytes.Buffer
+		if json.Compact(&buf, e) == nil {
+			els = append(els, buf.String())
+		} else {
+			els = append(els, string(e))
+		}
+	}
+	sort.Strings(els)
+	return fmt.Sprint(len(els), els)
+}
 
 func queryCases(rig *Rig, sc *Scenario, v *View) []qcase {
 	var out []qcase
@@ -393,7 +418,7 @@ func queryState(rig *Rig, sc *Scenario, s *State) ([]Violation, map[string]int64
 			}
 			if lerr != nil {
 				add("query-returns-the-stored-record", c.kind, "legacy-error:"+errClass(lerr), fmt.Sprintf("legacy %s(%s) failed: %v", c.kind, c.arg, lerr))
-			} else if !bytes.Equal(want, lbz) {
+			} else if !bytes.Equal(want, lbz) && jsonMultiset(want) != jsonMultiset(lbz) {
 				add("query-returns-the-stored-record", c.kind, "legacy-differs", fmt.Sprintf("legacy %s(%s) returned %s, stored %s", c.kind, c.arg, clip(string(lbz)), clip(string(want))))
 			}
 		}
